@@ -51,6 +51,14 @@ TNext ==
                                  <<"G_C10_NoPanic", ~e.panic>>})
               IN /\ viol' = (IF bad = {} THEN viol ELSE viol \cup {<<l, "OtpParallel", bad>>})
                  /\ UNCHANGED <<ub, bvars, ovars>>
+         [] e.ev = "OtpPhase" ->
+              \* one attempt e.gapMs after the previous evaluation of the same user (fresh limiter otherwise), at a chosen
+              \* phase of the wall-clock second; e.tookMs bounds how much later than gapMs the server can have looked
+              LET bad == Failed({<<"G_C14_Spacing", e.gapMs + e.tookMs < MinGap * 1000 => (~e.accepted /\ ~e.evaluated /\ e.failCount = 0)>>,
+                                 <<"G_C14_NormalWorks", (e.gapMs >= MinGap * 1000 /\ e.right) => e.accepted>>,
+                                 <<"G_C14_OnlyRightCode", e.accepted => e.right>>})
+              IN /\ viol' = (IF bad = {} THEN viol ELSE viol \cup {<<l, "OtpPhase", bad>>})
+                 /\ UNCHANGED <<ub, bvars, ovars>>
          [] e.ev = "Wait" -> Wait(e.d) /\ UNCHANGED <<ub, viol, bvars>>
     /\ l' = l + 1
 TSpec == TInit /\ [][TNext]_<<bvars, ovars, l, viol, ub>>
